@@ -164,6 +164,7 @@ type Case struct {
 	Chunked     bool        `json:"chunked,omitempty"`       // small chunk / max-put sizes so that uploads are chunked
 	Special     bool        `json:"special,omitempty"`       // passwords contain characters that differ under URL / form encoding
 	LogVia      string      `json:"log_via,omitempty"`       // "" slog text handler | json slog JSON handler | logrus | logrus-json (the logrus bridge)
+	LogLevel    string      `json:"log_level,omitempty"`     // level the client's logger is enabled for: "" trace | debug | info | warn | error
 	DefTLS      string      `json:"def_tls,omitempty"`       // WithConfigHostDefault: TLS of hosts that do not say ("" = no default host given)
 	DefRepoAuth bool        `json:"def_repo_auth,omitempty"` // WithConfigHostDefault: repoAuth
 	DefHelper   bool        `json:"def_helper,omitempty"`    // WithConfigHostDefault: credHelper (regctl --default-cred-helper): the helper is asked for every host
@@ -346,5 +347,6 @@ func (c *Case) shape() string {
 	for _, f := range c.Faults {
 		fmt.Fprintf(&sb, ";f%d@%d:%s%d", f.Host, f.At, f.Kind, f.Status)
 	}
+	sb.WriteString(";log=" + c.LogVia + "/" + c.LogLevel)
 	return sb.String()
 }
